@@ -243,7 +243,7 @@ Definition rn_campaign (rn : rawnode) := rn_raft_step rn (msg0 MsgHup).
 
 Definition rn_propose (rn : rawnode) (data : bytes) :=
   rn_raft_step rn (set_entries (set_from (msg0 MsgProp) (r_id (rn_raft rn)))
-                               [mkEntry 0 0 EntryNormal false data false]).
+                               [mkEntry 0 0 EntryNormal false data (match data with [] => false | _ => true end) false]).
 
 (* ProposeConfChange: the marshalled entry (type, data, decoded "leave" bit) is the input *)
 Definition rn_propose_cc (rn : rawnode) (e : entry) :=
@@ -265,7 +265,7 @@ Definition rn_transfer_leader (rn : rawnode) (id : N) :=
 Definition rn_forget_leader (rn : rawnode) := rn_raft_step rn (msg0 MsgForgetLeader).
 
 Definition rn_read_index (rn : rawnode) (ctx : bytes) :=
-  rn_raft_step rn (set_entries (msg0 MsgReadIndex) [mkEntry 0 0 EntryNormal false ctx false]).
+  rn_raft_step rn (set_entries (msg0 MsgReadIndex) [mkEntry 0 0 EntryNormal false ctx (match ctx with [] => false | _ => true end) false]).
 
 End WithStorage.
 
